@@ -626,6 +626,23 @@ def gen_gattr_program(rng, same_line=False, with_defaults_case=True, builtin=Non
                         continue
                     used.add(j)
                     v = rng.choice([0, 1, 5, 9, 17, 255, 256, -1, -300, 32767, -32767, rng.randint(-2000, 2000)])
+                    if builtin is None and rng.random() < 0.15:
+                        # a conditional expression whose branches read a glyph metric: one expression object for the whole
+                        # class, a different value for every glyph (advance of glyph g in ttf.simple_font: 350 + 10*(g % 17))
+                        k = rng.choice([2, 3, 4])
+                        form = rng.choice(["false_branch", "true_branch", "both"])
+                        c = rng.choice([7, 100, -3])
+                        if form == "false_branch":
+                            txt_ = "(%d == 1) ? %d : advancewidth / %d" % (rng.choice([0, 2]), c, k)
+                            per = lambda g_: (350 + 10 * (g_ % 17)) // k
+                        elif form == "true_branch":
+                            txt_ = "(1 == 1) ? advancewidth / %d : %d" % (k, c)
+                            per = lambda g_: (350 + 10 * (g_ % 17)) // k
+                        else:
+                            txt_ = "(advancewidth > 400) ? advancewidth / %d : advancewidth" % k
+                            per = lambda g_: ((350 + 10 * (g_ % 17)) // k) if (350 + 10 * (g_ % 17)) > 400 else (350 + 10 * (g_ % 17))
+                        parts.append((anames[j], j, 0, txt_, [[g_, per(g_)] for g_ in prog.classes[cls]]))
+                        continue
                     if munits and abs(v) <= 4000 and rng.random() < 0.5:
                         # written as a scaled number (either spelling of the suffix); stored in design units
                         parts.append((anames[j], j, scaled(v), "%d%s" % (v, rng.choice("mM"))))
@@ -641,8 +658,12 @@ def gen_gattr_program(rng, same_line=False, with_defaults_case=True, builtin=Non
                 lines.append("%s {%s};" % (cls, "; ".join(txt(pt) for pt in parts)))
                 merged += 1
             ln = merged          # the "line" that decides which of two statements is the later one
-            for nm, j, v in [pt[:3] for pt in parts]:
-                assigns.append({"order": order, "line": ln, "override": ov, "cls": names.index(cls), "attr": j, "value": v})
+            for pt in parts:
+                nm, j, v = pt[:3]
+                a_ = {"order": order, "line": ln, "override": ov, "cls": names.index(cls), "attr": j, "value": v}
+                if len(pt) > 4:
+                    a_["perGlyph"] = pt[4]
+                assigns.append(a_)
                 order += 1
         lines.append("endtable;")
         lines.append("endenvironment;")
